@@ -71,14 +71,28 @@ type world struct {
 	// the driver's own knowledge (what a node knows about itself)
 	ownNonce        []uint64
 	ownHash         [][]byte
-	rollbackPending bool
+	rollbackPending [2]bool // per twin: while a shifted delivery is outstanding the twins may consume a request at different checks
 	lastStuck       bool
+
+	// cross-batch shifts: batches one twin still has to receive
+	pending       []deferred
+	shiftAccepted bool
+	// highest nonce among the headers each twin accepted (AddHeader returned nil): mirrors highestNonceReceived
+	hnr         [2]uint64
+	noBlacklist bool // no header of the plan has a wrong timestamp: the blacklist stays empty
 
 	// non-triviality bookkeeping
 	permutedAccepted bool
 	procAccepted     bool
 	checksAfterPerm  int
 	lastFinal        uint64
+}
+
+// deferred is a batch of received headers that one twin gets some events later than the other.
+type deferred struct {
+	twin  int
+	dueAt int // delivered before the step with this index runs (or at the end of the plan)
+	step  *simkit.Step
 }
 
 func (w *world) mkHeader(nonce, round uint64, epoch uint32, prev []byte, badTS bool) data.HeaderHandler {
@@ -157,48 +171,164 @@ func (w *world) check(site string) {
 	for i, t := range w.tw {
 		fis[i] = t.fd.CheckFork()
 	}
-	// (ii) first: identical fork choice on both twins
 	a, b := fis[0], fis[1]
-	if a.IsDetected != b.IsDetected || a.Nonce != b.Nonce || a.Round != b.Round || !sameBytes(a.Hash, b.Hash) {
-		c.Violate("C20", "twin-fork-differs", site,
-			"CheckFork differs between twins whose histories differ only in the order of competing received headers inside a batch: A=%s B=%s",
-			fiStr(a), fiStr(b))
+	// (ii): identical fork choice on both twins, once both have received the same set of events
+	// (a rollback request that only one twin still holds - the other one reported it at a check inside a shift window,
+	// where "stuck" has priority in one twin only - makes this report a driver request, not a fork choice)
+	requestHeldByOneTwin := w.rollbackPending[0] != w.rollbackPending[1]
+	// (a header that one twin accepted and later purged as invalid while the other twin, receiving it after the final
+	// checkpoint moved, rejected it before counting it, leaves the twins with different "highest nonce received": the
+	// unchanged detector's same-round tie-break and too-late rule read that value; see Assumptions)
+	highestNonceDiffers := w.hnr[0] != w.hnr[1]
+	if highestNonceDiffers && len(w.pending) == 0 {
+		c.Probe("fork_comparison_skipped_highest_received_nonce_differs")
 	}
-	w.compareFinal(site)
+	if len(w.pending) == 0 {
+		if !requestHeldByOneTwin && !highestNonceDiffers && (a.IsDetected != b.IsDetected || a.Nonce != b.Nonce || a.Round != b.Round || !sameBytes(a.Hash, b.Hash)) {
+			c.Violate("C20", "twin-fork-differs", site,
+				"CheckFork differs between twins that received the same events and differ only in the order in which competing received headers arrived: A=%s B=%s",
+				fiStr(a), fiStr(b))
+		}
+		w.compareFinal(site)
+	}
 
 	// (i) fork nonce above the final nonce, unless a rollback was requested or the stuck signature is returned
-	exempt := ""
-	switch {
-	case isStuckSignature(a) || isStuckSignature(b):
-		exempt = "stuck"
-		c.Probe("forced_fork_stuck_signature")
-	case w.rollbackPending:
-		exempt = "rollback-requested"
-		w.rollbackPending = false // one request, one exempt report
-		c.Probe("rollback_request_reported")
-	}
-	w.lastStuck = isStuckSignature(a)
+	var exempt [2]string
 	for i, t := range w.tw {
 		fi := fis[i]
+		switch {
+		case isStuckSignature(fi):
+			exempt[i] = "stuck"
+		case w.rollbackPending[i]:
+			exempt[i] = "rollback-requested"
+			w.rollbackPending[i] = false // one request, one exempt report
+		}
 		final := t.fd.GetHighestFinalBlockNonce()
-		if fi.IsDetected && exempt == "" && fi.Nonce <= final {
+		if fi.IsDetected && exempt[i] == "" && fi.Nonce <= final {
 			c.Violate("C20", "fork-at-or-below-final", site,
 				"twin %s: CheckFork reports a fork at nonce %d (round %d, hash %x) while the highest final nonce is %d; no rollback was requested and this is not the stuck signature",
 				t.name, fi.Nonce, fi.Round, fi.Hash, final)
 		}
 	}
-	if a.IsDetected && exempt == "" {
+	switch exempt[0] {
+	case "stuck":
+		c.Probe("forced_fork_stuck_signature")
+	case "rollback-requested":
+		c.Probe("rollback_request_reported")
+	}
+	w.lastStuck = isStuckSignature(a) && isStuckSignature(b)
+	if a.IsDetected && exempt[0] == "" {
 		c.Probe("fork_detected")
 		if a.Round == process.MinForkRound && a.Hash != nil {
 			c.Probe("fork_triggered_by_notarized")
 		}
 	}
-	if w.permutedAccepted {
+	if (w.permutedAccepted || w.shiftAccepted) && len(w.pending) == 0 {
 		w.checksAfterPerm++
 	}
-	c.Eventf("  check A=%s B=%s final=%d/%x probable=%d exempt=%q", fiStr(a), fiStr(b),
-		w.tw[0].fd.GetHighestFinalBlockNonce(), w.tw[0].fd.GetHighestFinalBlockHash(), w.tw[0].fd.ProbableHighestNonce(), exempt)
+	c.Eventf("  check A=%s B=%s final=%d/%x probable=%d exempt=%q/%q outstanding=%d", fiStr(a), fiStr(b),
+		w.tw[0].fd.GetHighestFinalBlockNonce(), w.tw[0].fd.GetHighestFinalBlockHash(), w.tw[0].fd.ProbableHighestNonce(), exempt[0], exempt[1], len(w.pending))
 	c.FP(a.IsDetected, a.Nonce-w.baseNonce, a.Round, w.tw[0].fd.GetHighestFinalBlockNonce()-w.baseNonce, len(w.ownNonce))
+}
+
+// deliver gives the batch of a recv step to one twin in the given order and returns the accepted received hashes.
+func (w *world) deliver(ti int, st *simkit.Step, order []int) map[string]bool {
+	c, t := w.c, w.tw[ti]
+	nonce := uint64(st.Int(0, 0))
+	accepted := map[string]bool{}
+	for _, j := range order {
+		round, epoch, fl := uint64(st.Int(2+3*j, 0)), uint32(st.Int(3+3*j, 0)), st.Int(4+3*j, 0)
+		hash, prev := st.Bytes(2*j), st.Bytes(2*j+1)
+		state := process.BHReceived
+		if fl&flagProposed != 0 {
+			state = process.BHProposed
+		}
+		err := t.fd.AddHeader(w.mkHeader(nonce, round, epoch, prev, fl&flagBadTimestamp != 0), hash, state, nil, nil)
+		c.Eventf("  %s AddHeader(n=%d r=%d e=%d h=%x prev=%x %s) = %s", t.name, nonce, round, epoch, hash, prev, stateName(state), errStr(err))
+		if err == nil && state == process.BHReceived {
+			accepted[string(hash)] = true
+		}
+		if err == nil && nonce > w.hnr[ti] {
+			w.hnr[ti] = nonce
+		}
+		if err != nil && ti == 0 {
+			c.Probe("rejected:" + err.Error())
+		}
+		if ti == 0 && state == process.BHReceived && int64(round) < t.rh.idx-process.BlockFinality {
+			c.Probe("received_too_late")
+		}
+	}
+	return accepted
+}
+
+// deliverDue hands over the shifted batches whose time has come (all of them when si < 0).
+func (w *world) deliverDue(si int) (delivered bool) {
+	keep := w.pending[:0]
+	for _, d := range w.pending {
+		if si >= 0 && d.dueAt > si {
+			keep = append(keep, d)
+			continue
+		}
+		k := (len(d.step.I) - 2) / 3
+		if k > 4 {
+			k = 4
+		}
+		w.c.Eventf("late delivery to %s of the batch of step nonce=%d", w.tw[d.twin].name, d.step.Int(0, 0))
+		order := nthPerm(0, k)
+		if d.twin == 1 {
+			order = nthPerm(d.step.Int(1, 0), k)
+		}
+		if acc := w.deliver(d.twin, d.step, order); len(acc) > 0 {
+			w.shiftAccepted = true
+			w.c.Probe("cross_batch_shift_delivered_and_accepted")
+		}
+		w.lastStuck = false
+		delivered = true
+	}
+	w.pending = keep
+	return delivered
+}
+
+// shiftAllowed decides whether the batch of step si may reach one twin k events later than the other without
+// giving the two twins legitimately different information (see Assumptions): the window must contain only events
+// that neither forget headers nor move the final checkpoint without purging, and the round clock may advance only
+// if every header of the batch is classified the same way (too late / on time / too early) at both delivery times.
+func (w *world) shiftAllowed(si, k int) bool {
+	p := w.c.Plan
+	if !w.noBlacklist || k < 1 {
+		return false
+	}
+	var ticks int64
+	for j := si + 1; j <= si+k && j < len(p.Steps); j++ {
+		switch p.Steps[j].Op {
+		case "recv", "proc", "check", "setrb", "addnotar":
+		case "tick":
+			d := p.Steps[j].Int(0, 1)
+			if d < 1 {
+				d = 1
+			}
+			if d > 40 {
+				d = 40
+			}
+			ticks += d
+		default:
+			return false
+		}
+	}
+	if ticks > 0 {
+		st := &p.Steps[si]
+		idx := w.tw[0].rh.idx
+		n := (len(st.I) - 2) / 3
+		for j := 0; j < n && j < 4; j++ {
+			round := st.Int(2+3*j, 0)
+			late0, late1 := round < idx-process.BlockFinality, round < idx+ticks-process.BlockFinality
+			early0, early1 := round > idx+1, round > idx+ticks+1
+			if late0 != late1 || early0 != early1 {
+				return false
+			}
+		}
+	}
+	return true
 }
 
 func execC20(c *simkit.Ctx) (nontrivial bool) {
@@ -229,6 +359,23 @@ func run(c *simkit.Ctx) bool {
 		w.tw[i] = t
 	}
 	w.lastFinal = w.baseNonce
+	w.hnr = [2]uint64{w.baseNonce, w.baseNonce}
+	w.noBlacklist = true
+	for si := range p.Steps {
+		st := &p.Steps[si]
+		switch st.Op {
+		case "recv":
+			for j := 0; 4+3*j < len(st.I); j++ {
+				if st.I[4+3*j]&flagBadTimestamp != 0 {
+					w.noBlacklist = false
+				}
+			}
+		case "proc":
+			if st.Int(3, 0)&flagBadTimestamp != 0 {
+				w.noBlacklist = false
+			}
+		}
+	}
 	headHash := func() []byte {
 		if len(w.ownHash) == 0 {
 			return genesisHash
@@ -261,6 +408,7 @@ func run(c *simkit.Ctx) bool {
 	for si := range p.Steps {
 		st := &p.Steps[si]
 		c.CurStep = si
+		w.deliverDue(si)
 		didSomething := true
 		switch st.Op {
 		case "tick":
@@ -287,49 +435,54 @@ func run(c *simkit.Ctx) bool {
 			if k > 4 {
 				k = 4
 			}
-			nonce := uint64(st.Int(0, 0))
 			orders := [2][]int{nthPerm(0, k), nthPerm(st.Int(1, 0), k)}
-			accepted := [2]map[string]bool{{}, {}}
-			sameRound := false
-			for ti, t := range w.tw {
-				for _, j := range orders[ti] {
-					round, epoch, fl := uint64(st.Int(2+3*j, 0)), uint32(st.Int(3+3*j, 0)), st.Int(4+3*j, 0)
-					hash, prev := st.Bytes(2*j), st.Bytes(2*j+1)
-					state := process.BHReceived
-					if fl&flagProposed != 0 {
-						state = process.BHProposed
-					}
-					err := t.fd.AddHeader(w.mkHeader(nonce, round, epoch, prev, fl&flagBadTimestamp != 0), hash, state, nil, nil)
-					c.Eventf("  %s AddHeader(n=%d r=%d e=%d h=%x prev=%x %s) = %s", t.name, nonce, round, epoch, hash, prev, stateName(state), errStr(err))
-					if err == nil && state == process.BHReceived {
-						accepted[ti][string(hash)] = true
-					}
-					if err != nil && ti == 0 {
-						c.Probe("rejected:" + err.Error())
-					}
-					if ti == 0 && state == process.BHReceived && int64(round) < t.rh.idx-process.BlockFinality {
-						c.Probe("received_too_late")
-					}
+			// cross-batch shift: T>0 twin B, T<0 twin A receives this batch |T| events later than the other twin
+			late := -1
+			if st.T != 0 {
+				dist := st.T
+				late = 1
+				if dist < 0 {
+					dist, late = -dist, 0
+				}
+				if dist > 40 {
+					dist = 40
+				}
+				if w.shiftAllowed(si, dist) {
+					w.pending = append(w.pending, deferred{twin: late, dueAt: si + dist + 1, step: st})
+					c.Probe("cross_batch_shift_applied")
+				} else {
+					late = -1
 				}
 			}
-			for a := 0; a < k; a++ {
-				for b := a + 1; b < k; b++ {
-					if st.Int(2+3*a, 0) == st.Int(2+3*b, 0) && !sameBytes(st.Bytes(2*a), st.Bytes(2*b)) &&
-						accepted[0][string(st.Bytes(2*a))] && accepted[0][string(st.Bytes(2*b))] {
-						sameRound = true
+			var accepted [2]map[string]bool
+			for ti := range w.tw {
+				if ti == late {
+					c.Eventf("  %s receives this batch later", w.tw[ti].name)
+					continue
+				}
+				accepted[ti] = w.deliver(ti, st, orders[ti])
+			}
+			if late < 0 {
+				sameRound := false
+				for a := 0; a < k; a++ {
+					for b := a + 1; b < k; b++ {
+						if st.Int(2+3*a, 0) == st.Int(2+3*b, 0) && !sameBytes(st.Bytes(2*a), st.Bytes(2*b)) &&
+							accepted[0][string(st.Bytes(2*a))] && accepted[0][string(st.Bytes(2*b))] {
+							sameRound = true
+						}
 					}
 				}
-			}
-			differs := false
-			for j := range orders[0] {
-				differs = differs || orders[0][j] != orders[1][j]
-			}
-			if differs && len(accepted[0]) >= 2 && len(accepted[1]) >= 2 {
-				w.permutedAccepted = true
-				c.Probe("permuted_batch_accepted")
-			}
-			if sameRound {
-				c.Probe("competing_same_round_headers")
+				differs := false
+				for j := range orders[0] {
+					differs = differs || orders[0][j] != orders[1][j]
+				}
+				if differs && len(accepted[0]) >= 2 && len(accepted[1]) >= 2 {
+					w.permutedAccepted = true
+					c.Probe("permuted_batch_accepted")
+				}
+				if sameRound {
+					c.Probe("competing_same_round_headers")
+				}
 			}
 			if st.Fault != "" {
 				c.Fault(st.Fault)
@@ -351,7 +504,7 @@ func run(c *simkit.Ctx) bool {
 			if len(st.B)-2 < m {
 				m = len(st.B) - 2
 			}
-			for _, t := range w.tw {
+			for ti, t := range w.tw {
 				var sn []data.HeaderHandler
 				var snh [][]byte
 				for j := 0; j < m && !w.meta; j++ {
@@ -360,6 +513,9 @@ func run(c *simkit.Ctx) bool {
 				}
 				err := t.fd.AddHeader(w.mkHeader(nonce, round, epoch, prev, st.Int(3, 0)&flagBadTimestamp != 0), hash, process.BHProcessed, sn, snh)
 				c.Eventf("  %s AddHeader(n=%d r=%d e=%d h=%x processed, %d self-notarized) = %s", t.name, nonce, round, epoch, hash, len(sn), errStr(err))
+				if err == nil && nonce > w.hnr[ti] {
+					w.hnr[ti] = nonce
+				}
 				if err == nil {
 					w.procAccepted = true
 				} else if t.name == "A" {
@@ -403,9 +559,12 @@ func run(c *simkit.Ctx) bool {
 				didSomething = false
 				break
 			}
-			for _, t := range w.tw {
+			for ti, t := range w.tw {
 				err := t.fd.AddHeader(w.mkHeader(uint64(st.Int(0, 0)), uint64(st.Int(1, 0)), uint32(st.Int(2, 0)), st.Bytes(1), false), st.Bytes(0), process.BHNotarized, nil, nil)
 				c.Eventf("  %s AddHeader(n=%d h=%x notarized) = %s", t.name, st.Int(0, 0), st.Bytes(0), errStr(err))
+				if n := uint64(st.Int(0, 0)); err == nil && n > w.hnr[ti] {
+					w.hnr[ti] = n
+				}
 			}
 
 		case "rollback":
@@ -434,7 +593,7 @@ func run(c *simkit.Ctx) bool {
 			for _, t := range w.tw {
 				t.fd.SetRollBackNonce(n)
 			}
-			w.rollbackPending = true
+			w.rollbackPending = [2]bool{true, true}
 			c.Eventf("  SetRollBackNonce(%d)", n)
 
 		case "resetprob":
@@ -465,6 +624,18 @@ func run(c *simkit.Ctx) bool {
 			c.Eventf("  forced rollback of one block + ResetFork")
 			c.Probe("forced_rollback_done")
 
+		case "restore":
+			// storage bootstrapper after a failed reload: block tracker and fork detector go back to the start header
+			for _, t := range w.tw {
+				t.fd.RestoreToGenesis()
+			}
+			w.ownNonce, w.ownHash = nil, nil
+			w.lastStuck = false
+			w.lastFinal = w.baseNonce
+			w.hnr = [2]uint64{w.baseNonce, w.baseNonce}
+			c.Eventf("  RestoreToGenesis")
+			c.Probe("restored_to_genesis")
+
 		case "check":
 			if !checkEvery {
 				w.check("CheckFork")
@@ -480,7 +651,7 @@ func run(c *simkit.Ctx) bool {
 		c.StepsDone++
 		if checkEvery {
 			w.check("CheckFork after " + st.Op)
-		} else {
+		} else if len(w.pending) == 0 {
 			w.compareFinal("after " + st.Op)
 		}
 		if f := w.tw[0].fd.GetHighestFinalBlockNonce(); f != w.lastFinal {
@@ -493,5 +664,10 @@ func run(c *simkit.Ctx) bool {
 			break
 		}
 	}
-	return w.permutedAccepted && w.procAccepted && w.checksAfterPerm > 0
+	if !c.Failed("C20") && len(w.pending) > 0 {
+		c.CurStep = len(p.Steps)
+		w.deliverDue(-1)
+		w.check("CheckFork at the end of the run")
+	}
+	return (w.permutedAccepted || w.shiftAccepted) && w.procAccepted && w.checksAfterPerm > 0
 }
